@@ -6,6 +6,7 @@ import (
 
 	"github.com/boz/kcache"
 	"github.com/boz/kcache/filter"
+	"github.com/boz/kcache/types/pod"
 	metav1 "k8s.io/apimachinery/pkg/apis/meta/v1"
 
 	"verif/explore"
@@ -20,12 +21,17 @@ import (
 //
 //	refilter-racing-root-close: Refilter calls with a changed filter on every refilterable node race with the
 //	    root's shutdown (the node may find its parent's cache already stopped);
+//	leaf-close-racing-publish-and-stop: one subscription is closed on its own while an event is being distributed and
+//	    the root shuts down (the publisher may meet the closing subscription before its unsubscribe request);
+//	stalled-typed-subscriber-then-stop: a typed (pod) subscription nobody reads receives more events than its
+//	    buffer holds (EventBufsiz modelled as 2), then the root shuts down: every library goroutine must exit;
 //	monitor-closed-by-own-handler: a handler closes its own monitor from inside a callback (the "seen what I
 //	    wanted" pattern): that monitor's Done() closes, the call returns, siblings keep working.
 type ncfg struct {
-	name  string
-	mode  string
-	bound int
+	name   string
+	mode   string
+	bound  int
+	bufsiz int
 }
 
 type ninst struct {
@@ -98,6 +104,57 @@ func (in *ninst) observe() {
 	in.observed = true
 }
 
+func (in *ninst) runLeafClose() {
+	a := hx.Pod("ns", "a", "1", "l=1")
+	in.root = hx.NewRoot(filter.Null())
+	in.root.Init([]metav1.Object{a})
+	in.nodes = hx.Build(in.root.Pub, []hx.Spec{{Kind: "sub"}, {Kind: "sub"}}, nil, "", func(*hx.Node) kcache.Handler { return nil })
+	for _, n := range in.nodes {
+		if n.Err != nil {
+			vs.Fail("build | %s: %v", n.Path, n.Err)
+			return
+		}
+		<-n.Ready()
+		n := n
+		go n.Consume(false)
+	}
+	fin := make(chan bool, 4)
+	go func() { in.nodes[0].Close(); fin <- true }()
+	go func() {
+		in.root.Publish(kcache.NewEvent(kcache.EventTypeUpdate, hx.Pod("ns", "a", "2", "l=1")))
+		fin <- true
+	}()
+	go func() { in.root.Stop(); fin <- true }()
+	for i := 0; i < 3; i++ {
+		<-fin
+	}
+	in.refDone, in.stopDone = true, true
+	in.observe()
+}
+
+func (in *ninst) runStalledTyped() {
+	in.root = hx.NewRoot(filter.Null())
+	in.root.Init(nil)
+	ts, err := pod.VNewController(in.root.Pub).Subscribe()
+	if err != nil {
+		vs.Fail("build | typed subscribe: %v", err)
+		return
+	}
+	<-ts.Ready()
+	for i := 1; i <= 6; i++ {
+		t := kcache.EventTypeUpdate
+		if i == 1 {
+			t = kcache.EventTypeCreate
+		}
+		in.root.Publish(kcache.NewEvent(t, hx.Pod("ns", "a", fmt.Sprint(i), "l=1")))
+		vs.SleepIdle(1)
+	}
+	in.root.Stop()
+	in.refDone, in.stopDone = true, true
+	in.observe()
+	in.done["typed"] = hx.IsClosed(ts.Done())
+}
+
 func (in *ninst) runSelfClose() {
 	a := hx.Pod("ns", "a", "1", "l=1")
 	in.root = hx.NewRoot(filter.Null())
@@ -164,6 +221,15 @@ func (in *ninst) check(r *vs.Result) []string {
 		if left := ctl.LibBlocked(r); len(left) > 0 {
 			add("C12", "goroutine leak", "library goroutines alive after the root's shutdown raced with Refilter calls: %v", left)
 		}
+	case "leaf-close-racing-publish-and-stop", "stalled-typed-subscriber-then-stop":
+		for p, d := range in.done {
+			if !d {
+				add("C11", "descendant not closed", "node %s is not done at quiescence after the root was shut down", p)
+			}
+		}
+		if left := ctl.LibBlocked(r); len(left) > 0 {
+			add("C12", "goroutine leak", "library goroutines alive after the root's shutdown: %v", left)
+		}
 	case "monitor-closed-by-own-handler":
 		if !in.selfClosed {
 			add("C11", "harness", "the handler never ran")
@@ -199,17 +265,24 @@ func narrow(prop, tier string) []runner.Sc {
 	for _, c := range []ncfg{
 		{name: "refilter-racing-root-close", mode: "S2", bound: d},
 		{name: "monitor-closed-by-own-handler", mode: "S2", bound: d},
+		{name: "leaf-close-racing-publish-and-stop", mode: "S2", bound: d},
+		{name: "stalled-typed-subscriber-then-stop", mode: "S2", bound: d - 1, bufsiz: 2},
 	} {
 		c := c
 		out = append(out, runner.Sc{
 			Scenario: explore.Scenario{
 				Name: fmt.Sprintf("%s/narrow/%s/%s%d", strings.ToLower(prop), c.name, c.mode, c.bound), Mode: c.mode, Bound: c.bound,
-				Cfg: vs.Config{Timers: vs.TimersIdle, MaxSteps: 200000},
+				Cfg: vs.Config{Timers: vs.TimersIdle, MaxSteps: 200000, Bufsiz: c.bufsiz},
 				New: func() explore.Instance {
 					in := &ninst{prop: prop, c: c}
 					run := in.runRefilter
-					if c.name == "monitor-closed-by-own-handler" {
+					switch c.name {
+					case "monitor-closed-by-own-handler":
 						run = in.runSelfClose
+					case "leaf-close-racing-publish-and-stop":
+						run = in.runLeafClose
+					case "stalled-typed-subscriber-then-stop":
+						run = in.runStalledTyped
 					}
 					return explore.Instance{Run: run, Check: in.check, Outcome: in.outcome}
 				},
